@@ -236,8 +236,9 @@ class FakeRel:
                         self.readers.pop(s, None)
 
 
-def k_ext(seq, final):
-    """the same with an external dispatcher: run_forever returns at once, the external loop drives everything"""
+def k_ext(seq, final, close_in_timer=False):
+    """the same with an external dispatcher: run_forever returns at once, the external loop drives everything.
+    close_in_timer: the application calls close() from a timer of the external loop while the reconnect timer is pending"""
     interval = sx.sym_real("interval")
     sx.assume(sx.And(interval > 0, interval <= 20))
     specs, outcomes, loss_after = _specs(seq, final)
@@ -249,6 +250,8 @@ def k_ext(seq, final):
     import websocket
     try:
         try:
+            if close_in_timer:
+                rel.timeout(loss_after[0] + interval * Fraction(1, 2), lambda: run.app.close())
             run.app.run_forever(dispatcher=rel, reconnect=interval)
             rel.dispatch(run.k.t0 + 400)
         except simnet.KernelStuck:
@@ -265,6 +268,12 @@ def k_ext(seq, final):
         simnet.uninstall()
     what = "ext:" + ",".join(seq) + "->" + final
     attempts = [e for e in run.k.log if e[1] == "connect"]
+    if close_in_timer:
+        sx.require(len(attempts) == 1, "the application's own close() ends the run: no further connection attempt (external dispatcher)",
+                   got=len(attempts), what=what)
+        sx.require(all(s.closed for s in run.net.socks), "all transports closed at the end", what=what)
+        cover("ext-close-timer")
+        return
     sx.require(len(attempts) == len(seq) + 1, "one connection attempt per loss until one succeeds, none after the run was ended",
                got=len(attempts), exp=len(seq) + 1, what=what)
     if len(attempts) != len(seq) + 1:
@@ -309,6 +318,7 @@ def obligations(tier):
              dict(seq=["eof"], final="close", default=True), dict(seq=["refused", "eof"], final="userclose", default=True),
              dict(seq=["eof", "eof"], final="close", ping=True), dict(seq=["reset", "refused"], final="userclose", ping=True)]
     ext = [dict(seq=list(seq), final=f) for c in range(0, 3) for seq in itertools.product(("refused", "rejected", "eof"), repeat=c) for f in ("close", "userclose")]
+    ext += [dict(seq=[l], final="close", close_in_timer=True) for l in ("eof", "refused", "rejected")]
     return [
         Obligation("K-seq", k_seq, seqs + extra,
                    bounds="all sequences of <=%d failed/lost connections over {refused, rejected, end of stream, reset, ping timeout} followed by a connection "
